@@ -62,8 +62,9 @@ def main():
             meta = os.path.join(sd, d, "meta.json")
             if os.path.exists(meta):
                 m = json.load(open(meta))
-                if m.get("status") == "neutralised":
-                    print("%-45s skipped (neutralised by a later repair, see meta.json)" % d)
+                if m.get("status") in ("neutralised", "masked_by_known_finding"):
+                    print("%-45s skipped (%s, see meta.json)" % (d, "neutralised by a later repair" if m["status"] == "neutralised"
+                                                                else "manifests only under a known-finding signature"))
                     continue
                 jobs.append((d, os.path.join(sd, d, "patch.diff"), m.get("caught_by") or [m["property"]], a.examples))
     else:
